@@ -412,6 +412,16 @@ func init() {
 						}
 					}
 				}
+				// token-level mutants (a value in key position, a missing colon, a doubled comma ...)
+				tms := gen.TokenMutants(doc)
+				if len(tms) > 600 {
+					tms = tms[:600]
+				}
+				for _, m := range tms {
+					sub++
+					c05Check(c, sub, m)
+				}
+				c.Obs("token_mutants", int64(len(tms)))
 				c.Obs("mutation_docs", 1)
 				c.Obs("mutants", int64(sub))
 				c.Sample(map[string]any{"family": "mutation", "base": string(doc), "mutants": sub})
